@@ -25,7 +25,8 @@ MODEL_SETS = ["V", "6", "D", "M", "T", "P", "K", "V6DMTPK", "V6DMTPK", "VK", "6M
 
 def make_desc(rng, shape):
     looms = []
-    tid, pid = 100, 10
+    # ids that straddle a change of decimal width now and then (97..104, 9..12)
+    tid, pid = rng.choice([100, 100, 97, 9996]), rng.choice([10, 10, 8, 98])
     ranks = rng.random() < 0.4
     rk = 0
     for li, (ncpus, procs) in enumerate(shape):
